@@ -16,7 +16,7 @@ import (
 )
 
 type vhloopFrame struct {
-	K    string `json:"k"`    // read | clunk | flush | badtype | short | rmsg
+	K    string `json:"k"` // read | clunk | flush | badtype | short | rmsg
 	Tag  int    `json:"tag"`
 	Gate int    `json:"gate"` // read/clunk: gate id, -1 = not gated
 	Mode int    `json:"mode"` // not gated: 0 ok, 1 backend error, 2 backend panic
@@ -330,9 +330,9 @@ func vhloopRun(prop string, scn vhloopScn) vhloopObs {
 // scenario construction helpers
 
 func vhloopSend(fs ...vhloopFrame) vhloopStep { return vhloopStep{Op: "send", Frames: fs} }
-func vhloopRel(g, mode int) vhloopStep       { return vhloopStep{Op: "release", Gate: g, Mode: mode} }
-func vhloopRead(tag, gate int) vhloopFrame   { return vhloopFrame{K: "read", Tag: tag, Gate: gate} }
-func vhloopFlush(tag, old int) vhloopFrame   { return vhloopFrame{K: "flush", Tag: tag, Old: old} }
+func vhloopRel(g, mode int) vhloopStep        { return vhloopStep{Op: "release", Gate: g, Mode: mode} }
+func vhloopRead(tag, gate int) vhloopFrame    { return vhloopFrame{K: "read", Tag: tag, Gate: gate} }
+func vhloopFlush(tag, old int) vhloopFrame    { return vhloopFrame{K: "flush", Tag: tag, Old: old} }
 func vhloopClunk(tag, fid int, gated bool) vhloopFrame {
 	g := -1
 	if gated {
@@ -529,3 +529,19 @@ func vhloopLoadReplay(p string) (vhloopScn, bool) {
 
 // vhloopRunB runs a generated scenario after making it race free (replays are run as recorded).
 func vhloopRunB(prop string, scn vhloopScn) vhloopObs { return vhloopRun(prop, vhloopBarriers(scn)) }
+
+// vhloopEmit writes an observation through to the file at once (a later hang must not lose it) and
+// counts the scenarios in which the server got stuck: each costs seconds of watchdog time, and three
+// are evidence enough, so the tests stop generating after that.
+var vhloopStuck int
+
+func vhloopEmit(out *vhOut, o vhloopObs) bool {
+	out.Emit(o)
+	out.mu.Lock()
+	out.w.Flush()
+	out.mu.Unlock()
+	if o.Hung || !o.Returned || !o.Setup {
+		vhloopStuck++
+	}
+	return vhloopStuck < 3
+}
